@@ -1,4 +1,5 @@
 CONSTANTS
+  Menu <- Kinds
   MaxLen = 1
   ContOpts <- ContOptsAll
   Envs <- EnvsTwo
